@@ -32,6 +32,10 @@ func c14Pairs() []dutyPair {
 		{"double-vote-other-source", duty{e: Ent{S: 0, T: 2, Root: 1}}, duty{e: Ent{S: 1, T: 2, Root: 1}}},
 		{"surround", duty{e: Ent{S: 1, T: 2, Root: 1}}, duty{e: Ent{S: 0, T: 3, Root: 1}}},
 		{"double-proposal", duty{prop: true, e: Ent{Slot: 5, Root: 1}}, duty{prop: true, e: Ent{Slot: 5, Root: 2}}},
+		// The same at the lowest legal values: the genesis attestation, the first epoch, slot 0.
+		{"double-vote-genesis", duty{e: Ent{S: 0, T: 0, Root: 1}}, duty{e: Ent{S: 0, T: 0, Root: 2}}},
+		{"double-vote-first-epoch", duty{e: Ent{S: 0, T: 1, Root: 1}}, duty{e: Ent{S: 0, T: 1, Root: 2}}},
+		{"double-proposal-slot-0", duty{prop: true, e: Ent{Slot: 0, Root: 1}}, duty{prop: true, e: Ent{Slot: 0, Root: 2}}},
 	}
 }
 
@@ -420,7 +424,7 @@ func C14(tier string) int {
 	run.Coverage = map[string]any{
 		"evaluations":          cells + schedExecs,
 		"distinct_nontrivial":  len(outcomes),
-		"rule":                 fmt.Sprintf("for every accepted (n,t) with n <= %d and every conflicting pair (double vote with same and with other source, surround, double proposal): every assignment of request sequences over the two duties to the instances (all 15 sequences of length <= 3 per instance for n <= %d, five representative sequences above), each on a freshly DKG-generated account on real instances; on a 2-of-2 account one instance additionally receives every sequence of length <= 2 over duty x route (single by name, single by share key, batch of one, batch of two after an approved companion, batch of two before a refused companion); per assignment no instance may release partial signatures for both duties, and real threshold recovery over every t-subset must not succeed for both duties; plus both duties delivered concurrently to one instance under the cooperative scheduler (preemption bound %d); distinct = (n,t,pair,outcome vector) classes", maxN, fullN, bound),
+		"rule":                 fmt.Sprintf("for every accepted (n,t) with n <= %d and every conflicting pair (double vote with same and with other source, surround, double proposal, and double votes / double proposal at the lowest legal values 0->0, 0->1, slot 0): every assignment of request sequences over the two duties to the instances (all 15 sequences of length <= 3 per instance for n <= %d, five representative sequences above), each on a freshly DKG-generated account on real instances; on a 2-of-2 account one instance additionally receives every sequence of length <= 2 over duty x route (single by name, single by share key, batch of one, batch of two after an approved companion, batch of two before a refused companion); per assignment no instance may release partial signatures for both duties, and real threshold recovery over every t-subset must not succeed for both duties; plus both duties delivered concurrently to one instance under the cooperative scheduler (preemption bound %d); distinct = (n,t,pair,outcome vector) classes", maxN, fullN, bound),
 		"samples":              samples.List(),
 		"exhaustive":           !capped,
 		"assignments":          cells,
